@@ -583,7 +583,7 @@ def operator_level(ctx, specs=None):
     from vlib import opskit
 
     if specs is None:
-        specs = opskit.persistent_specs(ctx.rng, ctx.n(20, 200)) + opskit.mutation_after_speciation_specs(ctx.rng, ctx.n(8, 80))
+        specs = opskit.persistent_specs(ctx.rng, ctx.n(20, 200)) + opskit.mutation_after_speciation_specs(ctx.rng, ctx.n(8, 80)) + opskit.sparse_mutation_specs(ctx.rng, ctx.n(9, 90))
     opskit.drive(_OpsCtx(ctx), "C16ops", specs, opskit.oracle_c10, None, "check_case", "model-vs-impl")
     ctx.notes["operator_level"] = "topological search / layer removal applied through persistent operator objects (sequences and per-index contracts of vlib/opskit.py); only the structural-mutation clauses are reported under C16"
 
